@@ -69,11 +69,40 @@ func family(f int) *Scenario {
 		b.Flt = 3
 		return &Scenario{Subs: []SubCfg{a, b},
 			Lanes: [][]Op{{{"sub", 1, 0}, {"sub", 2, 0}}, {{"update", 1, 2}, {"update", 1, 100}, {"close", 1, 2}, {"update", 1, 3}, {"done", 1, 0}}, {{"unsub", 1, 0}}}}
+	case 11: // slow client: an update is inside Write / Flush while the client unsubscribes
+		return &Scenario{Subs: []SubCfg{sub(1, 0, 1)},
+			Lanes: [][]Op{{{"sub", 1, 0}}, {{"update", 1, 3}, {"update", 1, 4}}, {{"unsub", 1, 0}}}}
+	case 12: // the same for a synchronous subscriber whose request context is cancelled
+		a := sub(1, 0, 1)
+		a.Sync = true
+		return &Scenario{Subs: []SubCfg{a},
+			Lanes: [][]Op{{{"sub", 1, 0}}, {{"update", 1, 3}}, {{"cancelctx", 1, 0}}}}
+	case 13: // resolver shutdown / removeClient while two subscribers of one connection are being written to
+		return &Scenario{Subs: []SubCfg{sub(1, 0, 1), sub(2, 0, 1)},
+			Lanes: [][]Op{{{"sub", 1, 0}, {"sub", 2, 0}}, {{"update", 1, 3}}, {{"rmclient", 1, 0}}, {{"shutdown", 0, 0}}}}
+	case 14: // a source that calls the updater from two goroutines: Update(4) is called while Update(3) is in flight
+		return &Scenario{Subs: []SubCfg{sub(1, 0, 1), sub(2, 0, 2)},
+			Lanes: [][]Op{{{"sub", 1, 0}, {"sub", 2, 0}}, {{"update", 1, 3}}, {{"update", 1, 4}}}}
+	case 15: // three emitting goroutines: stream, a second stream goroutine, and a joiner's start-up hook (UpdateSubscription)
+		a, b := sub(1, 0, 1), sub(2, 0, 2)
+		b.Hook, b.HookEv = "emit", 6
+		return &Scenario{Subs: []SubCfg{a, b},
+			Lanes: [][]Op{{{"sub", 1, 0}}, {{"sub", 2, 0}}, {{"update", 1, 3}, {"update", 1, 5}}, {{"update", 1, 4}, {"complete", 1, 0}}, {{"done", 1, 0}}}}
+	case 16: // Start fails; a second subscriber with the same input joins while the error is written; a third comes later.
+		// Nobody asks 1 and 2 to leave: the failed start-up has to complete them and free the trigger id.
+		a, b, c := sub(1, 0, 1), sub(2, 0, 2), sub(3, 0, 3)
+		a.Start = "fail"
+		return &Scenario{Subs: []SubCfg{a, b, c}, Lanes: [][]Op{{{"sub", 1, 0}}, {{"sub", 2, 0}}, {{"sub", 3, 0}, {"unsub", 3, 0}}}}
+	case 17: // the start-up hook of the first subscriber fails; a synchronous subscriber with the same input joins meanwhile
+		a, b := sub(1, 0, 1), sub(2, 0, 2)
+		a.Hook = "fail"
+		b.Sync = true
+		return &Scenario{Subs: []SubCfg{a, b}, Lanes: [][]Op{{{"sub", 1, 0}}, {{"sub", 2, 0}}}}
 	}
 	return nil
 }
 
-const nFamilies = 11
+const nFamilies = 18
 
 // random scenarios: 1-3 subscribers on 1-2 triggers, random outcomes and op lanes
 func genScenario(r *common.Rand) *Scenario {
@@ -155,6 +184,15 @@ func genScenario(r *common.Rand) *Scenario {
 		}
 		sc.Lanes = append(sc.Lanes, l)
 	}
+	// a source that calls the updater from a second goroutine: another lane on the trigger of the first source lane
+	if r.Chance(1, 3) {
+		owner := sc.Lanes[len(sc.Lanes)-nsrc][0].A
+		l := []Op{{"update", owner, newEv()}}
+		if r.Chance(1, 2) {
+			l = append(l, Op{"update", owner, newEv()})
+		}
+		sc.Lanes = append(sc.Lanes, l)
+	}
 	for i := range sc.Subs {
 		if r.Chance(1, 6) {
 			sc.Subs[i].WFail = common.PickOf(r, evs)
@@ -165,6 +203,10 @@ func genScenario(r *common.Rand) *Scenario {
 	}
 	// cleanup lane: every run ends with all clients gone or the resolver shut down
 	var cl []Op
+	if r.Chance(1, 5) {
+		// nobody is asked to leave: only a failed start-up or the source's Done ends the subscriptions
+		return sc
+	}
 	if r.Chance(1, 3) {
 		cl = append(cl, Op{"shutdown", 0, 0})
 	} else {
@@ -296,6 +338,8 @@ func main() {
 			res := runSchedule(sc, byName(ch), maxSteps)
 			emit(out, fam, idx, sd, res)
 		}
+	case "ident":
+		runIdent(out, seed, common.ArgInt(args, "nrand", 24))
 	case "explore":
 		if os.Getenv("C12_DEBUG") != "" {
 			dbgStates = map[string]int{}
@@ -308,10 +352,14 @@ func main() {
 		runs := 0
 		r := common.NewRand(seed)
 		// exhaustive DFS (stateless: re-execute from scratch) per fixed family, capped
+		// the fixed families share 60% of the budget in equal slices (2/3 of a slice depth-first, 1/3 random
+		// schedules), the random scenarios get the rest
+		famSlice := budget * 6 / 10 / nFamilies
 		for fam := 0; fam < nFamilies; fam++ {
 			sc := family(fam)
 			var prefix []int
-			for k := 0; k < perFam && time.Since(t0) < budget; k++ {
+			t1 := time.Now()
+			for k := 0; k < perFam && time.Since(t0) < budget && time.Since(t1) < famSlice*2/3; k++ {
 				res := runSchedule(sc, byIndex(prefix), maxSteps)
 				emit(out, fam, 0, seed, res)
 				runs++
@@ -327,7 +375,7 @@ func main() {
 				prefix = append(append([]int{}, ch[:i]...), ch[i]+1)
 			}
 			// plus seeded random schedules of the same family
-			for k := 0; k < perFam/3 && time.Since(t0) < budget; k++ {
+			for k := 0; k < perFam/2 && time.Since(t0) < budget && time.Since(t1) < famSlice; k++ {
 				res := runSchedule(sc, func(step int, labels []string) int { return r.Pick(len(labels)) }, maxSteps)
 				emit(out, fam, 0, seed, res)
 				runs++
